@@ -1,4 +1,5 @@
 import Carquet.Proofs.DeltaSafe
+import Carquet.Proofs.DeltaBytesSafe
 /-
 C08 — component decoders safe on arbitrary bytes: the arithmetic part for the
 DELTA_BINARY_PACKED decoders (model of the repaired code).  Heap behaviour itself is observed
@@ -63,5 +64,77 @@ theorem C08_regression_F30 :
     Impl.Delta.geometryAccepted 8#64 4#64 = false ∧
     Impl.Delta.geometryAcceptedPreFix 0x100000080#64 4#64 = true ∧
     Impl.Delta.geometryAccepted 0x100000080#64 4#64 = false := by decide
+
+/-- DELTA_LENGTH_BYTE_ARRAY, on arbitrary bytes: `carquet_delta_length_decode` hands out pointers
+into its input.  `Impl.DeltaLength.decodeSlices` is the decoder with those pointers kept as
+`(offset, length)` pairs (first conjunct: it *is* the decoder — same statuses, and the values are the
+input bytes the pairs name).  Whenever it returns OK: exactly `num_values` slices, the first starting
+where the length stream ended (`c0`), each following the previous one without gap, each shorter than
+2 GiB, all of them inside `[c0, bytes_consumed)`, and `bytes_consumed ≤ data_size` — no returned
+pointer or length reaches outside the input buffer, whatever the bytes were. -/
+theorem C08_delta_length_slices_in_input (data : List UInt8) (n : Int) :
+    Impl.DeltaLength.decode data n =
+      (Impl.DeltaLength.decodeSlices data n).map
+        (fun r => (r.1.map (fun ol => (data.drop ol.1).take ol.2), r.2)) ∧
+    ∀ sl c, Impl.DeltaLength.decodeSlices data n = .ok (sl, c) →
+      0 < n ∧ sl.length = n.toNat ∧ c ≤ data.length ∧
+      ∃ c0, c0 ≤ c ∧ sl = Impl.DeltaLength.sliceOffsets c0 (sl.map Prod.snd) ∧
+        c = c0 + (sl.map Prod.snd).sum ∧
+        ∀ ol ∈ sl, c0 ≤ ol.1 ∧ ol.1 + ol.2 ≤ c ∧ ol.2 < 2 ^ 31 :=
+  ⟨Impl.DeltaLength.decode_eq_decodeSlices data n, Impl.DeltaLength.decodeSlices_safe data n⟩
+
+/-- non-vacuity: a stream (followed by two more bytes) whose three values are the input bytes
+22..24, none, 25 (lengths 3, 0, 1) -/
+example : Impl.DeltaLength.decodeSlices
+      ([0x80, 0x01, 0x04, 0x03, 0x06, 0x05, 0x03, 0, 0, 0, 0x20, 0, 0, 0, 0, 0, 0, 0, 0, 0, 0, 0] ++
+       [0xAA, 0xBB, 0xCC, 0xDD, 0xEE, 0xFF]) 3 =
+    .ok ([(22, 3), (25, 0), (25, 1)], 26) := by decide +kernel
+
+/-- Malformed input is refused, never followed: negative lengths and lengths reaching past the end
+give `CARQUET_ERROR_DECODE`, a non-positive count `CARQUET_ERROR_INVALID_ARGUMENT`. -/
+example : Impl.DeltaLength.decodeSlices [0x80, 0x01, 0x04, 0x01, 0x01] 1 = .error .decode ∧       -- length -1
+    Impl.DeltaLength.decodeSlices [0x80, 0x01, 0x04, 0x01, 0x04, 0xAA] 1 = .error .decode ∧          -- length 2, 1 byte left
+    Impl.DeltaLength.decodeSlices [0x80, 0x01, 0x04, 0x01, 0x04, 0xAA] 0 = .error .invalidArgument := by
+  refine ⟨?_, ?_, ?_⟩ <;> decide +kernel
+
+/-- DELTA_BYTE_ARRAY, on arbitrary bytes: `carquet_delta_strings_decode` copies, per value, `pre`
+bytes from the previous value and `suf` bytes from the input to `work_buffer + workOff`.
+`Impl.DeltaStrings.decodeAcc` is the decoder with these accesses kept as data (first conjunct: it
+*is* the decoder; the values are what the accesses build).  Whenever it returns OK, for a work
+buffer of `workSize` bytes: exactly `num_values` accesses; `accsSafe`: destinations are consecutive
+from offset 0, every value ends inside the work buffer, every prefix copy stays inside the previous
+value (none for the first), suffix reads are consecutive from the end `c0` of the two length
+streams; read access by access: every suffix read lies inside `[c0, bytes_consumed)` and
+`bytes_consumed ≤ data_size`; all lengths are below 2 GiB. -/
+theorem C08_delta_strings_accesses_in_bounds (data : List UInt8) (n : Int) (workSize : Nat) :
+    Impl.DeltaStrings.decode data n workSize =
+      (Impl.DeltaStrings.decodeAcc data n workSize).map
+        (fun r => (Impl.DeltaStrings.buildValues data [] r.1, r.2)) ∧
+    ∀ accs c, Impl.DeltaStrings.decodeAcc data n workSize = .ok (accs, c) →
+      0 < n ∧ accs.length = n.toNat ∧ c ≤ data.length ∧
+      ∃ c0, Impl.DeltaStrings.accsSafe workSize c0 0 0 accs ∧ c = c0 + (accs.map (·.suf)).sum ∧
+        (∀ a ∈ accs, c0 ≤ a.sufOff ∧ a.sufOff + a.suf ≤ c ∧ a.workOff + a.pre + a.suf ≤ workSize ∧
+           a.pre < 2 ^ 31 ∧ a.suf < 2 ^ 31) := by
+  refine ⟨Impl.DeltaStrings.decode_eq_decodeAcc data n workSize, ?_⟩
+  intro accs c h
+  obtain ⟨h1, h2, h3, c0, h4, h5, h6⟩ := Impl.DeltaStrings.decodeAcc_safe data n workSize accs c h
+  refine ⟨h1, h2, h3, c0, h4, h5, ?_⟩
+  intro a ha
+  obtain ⟨j1, j2, _, j4⟩ := Impl.DeltaStrings.accsSafe_forall workSize accs c0 0 0 h4 a ha
+  exact ⟨j1, by omega, j4, (h6 a ha).1, (h6 a ha).2⟩
+
+/-- non-vacuity: prefixes 0,2,1 and suffixes 2,1,3 over the bytes AA..FF; a work buffer of 9 bytes is
+exactly enough, 8 bytes are refused, and a prefix longer than the previous value is refused -/
+example : Impl.DeltaStrings.decodeAcc
+      ([0x80, 0x01, 0x04, 0x03, 0x00, 0x01, 0x02, 0, 0, 0, 0x03, 0, 0, 0, 0, 0, 0, 0] ++ [0x80, 0x01, 0x04, 0x03, 0x04, 0x01, 0x02, 0, 0, 0, 0x0C, 0, 0, 0, 0, 0, 0, 0] ++
+       [0xAA, 0xBB, 0xCC, 0xDD, 0xEE, 0xFF]) 3 9 =
+    .ok ([⟨0, 0, 36, 2⟩, ⟨2, 2, 38, 1⟩, ⟨5, 1, 39, 3⟩], 42) ∧
+    Impl.DeltaStrings.decodeAcc
+      ([0x80, 0x01, 0x04, 0x03, 0x00, 0x01, 0x02, 0, 0, 0, 0x03, 0, 0, 0, 0, 0, 0, 0] ++ [0x80, 0x01, 0x04, 0x03, 0x04, 0x01, 0x02, 0, 0, 0, 0x0C, 0, 0, 0, 0, 0, 0, 0] ++
+       [0xAA, 0xBB, 0xCC, 0xDD, 0xEE, 0xFF]) 3 8 = .error .outOfMemory ∧
+    Impl.DeltaStrings.decodeAcc
+      ([0x80, 0x01, 0x04, 0x02, 0x00, 0x06, 0, 0, 0, 0] ++ [0x80, 0x01, 0x04, 0x02, 0x04, 0x01, 0, 0, 0, 0] ++
+       [0xAA, 0xBB, 0xCC]) 2 64 = .error .decode := by
+  refine ⟨?_, ?_, ?_⟩ <;> decide +kernel
 
 end Carquet.Properties.C08
